@@ -161,3 +161,24 @@ Fixpoint srun (sp : sstate) (m : vmap) (ops : list aop) : list (res (list Z)) :=
   | [] => []
   | o :: r => let '(s, m', out) := sstep sp m o in out :: srun s m' r
   end.
+
+(* statements made of several operations (see model/Arrays.v xop): the spec runs them in order and
+   stops at the first error *)
+Fixpoint sseq (sp : sstate) (m : vmap) (ops : list aop) : sstate * vmap * res (list Z) :=
+  match ops with
+  | [] => (sp, m, Ok [])
+  | o :: r => let '(s, m', out) := sstep sp m o in
+              match out with Ok _ => sseq s m' r | e => (s, m', e) end
+  end.
+
+Definition sxstep (sp : sstate) (m : vmap) (x : xop) : sstate * vmap * res (list Z) :=
+  match x with
+  | XOp o => sstep sp m o
+  | XSeq ops tail => let '(s, m', out) := sseq sp m ops in (s, m', seq_out out tail)
+  end.
+
+Fixpoint sxrun (sp : sstate) (m : vmap) (xs : list xop) : list (res (list Z)) :=
+  match xs with
+  | [] => []
+  | x :: r => let '(s, m', out) := sxstep sp m x in out :: sxrun s m' r
+  end.
